@@ -85,12 +85,12 @@ func (f *GitFilter) copyToTemp(reader io.Reader, fileSize int64, cb tools.CopyCa
 		return
 	}
 
-	var from io.Reader = bytes.NewReader(by)
-	if fileSize < 0 || int64(len(by)) < fileSize {
-		// If there is still more data to be read from the file, tack on
-		// the original reader and continue the read from there.
-		from = io.MultiReader(from, reader)
-	}
+	// Continue with whatever remains of the stream after the bytes consumed
+	// above. "fileSize" is only a hint (for the filter commands it is the
+	// size of the file currently in the working tree, which need not be what
+	// Git is sending us), so it must not decide how much input is read:
+	// "buf" continues into the original reader unless that already hit EOF.
+	var from io.Reader = io.MultiReader(bytes.NewReader(by), buf)
 
 	size, err = tools.CopyWithCallback(writer, from, fileSize, cb)
 
